@@ -72,7 +72,8 @@ Change(k, s) ==
            IF s.isCreate /\ s.beginDepth > 0
              THEN [d |-> 1, s |-> IF k = "case" THEN [s EXCEPT !.inCase = @ + 1] ELSE s]
              ELSE [d |-> 0, s |-> s]
-      [] k \in {"endif", "endwhile"} -> [d |-> -1, s |-> s]
+      [] k \in {"endif", "endwhile"} ->          \* lowers the level only where IF / FOR / WHILE raised it (repair in /repo)
+           [d |-> IF s.isCreate /\ s.beginDepth > 0 THEN -1 ELSE 0, s |-> s]
       [] k \in {"endloop", "go", "kw"} -> [d |-> 0, s |-> s]
 
 \* one iteration of the loop in process(); returns [flush, s]
